@@ -1278,7 +1278,34 @@ def k_basic(gas):
                      name="basic_gas" if gas else "basic_liq", opaque_calls=_FLUID, attr_consts={"fluid.is_gas": gas})
 
 
+DC = "pf/derivative_calculation.py"
+
+
+def k_calc_lambda(friction_model, gas, use_numba=False):
+    """calc_lambda specialised to a friction model ('nikuradse' | 'swamee-jain'), fluid kind and engine"""
+    nm = "calc_lambda_%s_%s_%s" % ({"nikuradse": "nik", "swamee-jain": "sj"}[friction_model], "gas" if gas else "liq",
+                                  "nb" if use_numba else "np")
+    return translate(DC, "calc_lambda", {"m": "b", "eta": "b", "d": "b", "k": "b", "gas_mode": ("const", gas),
+                                         "friction_model": ("const", friction_model), "lengths": "b",
+                                         "options": ("const", {"use_numba": use_numba}), "area": "b"},
+                     name=nm, outputs=["lambda_", "re"])
+
+
+def k_der_lambda(friction_model):
+    nm = "calc_der_lambda_%s" % {"nikuradse": "nik", "swamee-jain": "sj"}[friction_model]
+    return translate(DC, "calc_der_lambda", {"friction_model": ("const", friction_model)}, name=nm,
+                     outputs=["lambda_der"])
+
+
+def k_pamb():
+    return translate("component_models/component_toolbox.py", "p_correction_height_air", {"height": "n"},
+                     name="p_correction_height_air", outputs=["p"])
+
+
 FILES = {
+    "KCalcLambda": lambda: [k_calc_lambda(f, g, nb) for f in ("nikuradse", "swamee-jain") for g in (False, True)
+                            for nb in (False, True)] + [k_der_lambda("nikuradse"), k_der_lambda("swamee-jain")],
+    "KPamb": lambda: [k_pamb()],
     "KGasResNp": lambda: [k_gasres_np()], "KGasResNb": k_gasres_nb,
     "KBasicRes": lambda: [k_basic(False), k_basic(True)],
     "KHydIncompNp": lambda: [k_hyd_incomp("np")], "KHydIncompNb": lambda: [k_hyd_incomp("nb")],
